@@ -946,6 +946,7 @@ class RecordLayer(object):
                 elif self._is_tls13_plus() and \
                         header.type == ContentType.alert and \
                         len(data) < 3 and \
+                        not self.handshake_finished and \
                         self._readState and \
                         self._readState.encContext and \
                         self._readState.seqnum == 0:
